@@ -17,6 +17,9 @@ import (
 	"github.com/nsqio/nsq/internal/version"
 )
 
+// the IDENTIFY body is a small JSON document describing the producer
+const maxIdentifyBodySize = 1024 * 1024
+
 type LookupProtocolV1 struct {
 	nsqlookupd *NSQLookupd
 }
@@ -208,6 +211,11 @@ func (p *LookupProtocolV1) IDENTIFY(client *ClientV1, reader *bufio.Reader, para
 	err = binary.Read(reader, binary.BigEndian, &bodyLen)
 	if err != nil {
 		return nil, protocol.NewFatalClientErr(err, "E_BAD_BODY", "IDENTIFY failed to read body size")
+	}
+
+	if bodyLen <= 0 || bodyLen > maxIdentifyBodySize {
+		return nil, protocol.NewFatalClientErr(nil, "E_BAD_BODY",
+			fmt.Sprintf("IDENTIFY invalid body size %d", bodyLen))
 	}
 
 	body := make([]byte, bodyLen)
